@@ -1458,6 +1458,8 @@ Library read_oas(const char* filename, double unit, double tolerance, ErrorCode*
     PropertyValue* modal_property_value_list = NULL;
 
     Property** next_property = &library.properties;
+    // Properties of records that are not stored (they must not end up on the previous owner)
+    Property* unused_properties = NULL;
 
     Array<Property*> unfinished_property_name = {};
     Array<PropertyValue*> unfinished_property_value = {};
@@ -1709,6 +1711,8 @@ Library read_oas(const char* filename, double unit, double tolerance, ErrorCode*
                         oasis_read_unsigned_integer(in);
                     }
                 }
+                next_property = &unused_properties;
+                while (*next_property) next_property = &(*next_property)->next;
                 break;
             case OasisRecord::CELL_REF_NUM:
             case OasisRecord::CELL: {
@@ -2579,6 +2583,7 @@ CLEANUP:
 
     unfinished_property_name.clear();
     unfinished_property_value.clear();
+    properties_clear(unused_properties);
 
     return library;
 }
